@@ -1,5 +1,6 @@
 """C09 — results never depend on access order or on earlier calls (DESIGN §5 C09)."""
 import itertools
+import json
 import math
 import warnings
 from fractions import Fraction as F
@@ -480,6 +481,70 @@ def gridded_history(rep, r, n):
         rep.probe_only += 1
 
 
+CROSS_SCRIPT = r"""
+import json, sys, warnings
+import numpy as np
+warnings.simplefilter('ignore')
+from photutils.aperture import (CircularAperture, CircularAnnulus, EllipticalAperture, EllipticalAnnulus, RectangularAperture,
+                                RectangularAnnulus, SkyCircularAperture)
+import astropy.units as u
+from astropy.coordinates import SkyCoord
+MAKE = {'circ': lambda: (CircularAperture((10.3, 9.6), 3.0), 'r', 5.5),
+        'circann': lambda: (CircularAnnulus((10.3, 9.6), 2.0, 4.0), 'r_out', 6.0),
+        'ell': lambda: (EllipticalAperture((10.3, 9.6), 4.0, 2.0, theta=0.3), 'a', 6.5),
+        'ellann': lambda: (EllipticalAnnulus((10.3, 9.6), 2.0, 4.0, 3.0, theta=0.3), 'a_out', 6.0),
+        'rect': lambda: (RectangularAperture((10.3, 9.6), 4.0, 2.0, theta=0.3), 'w', 7.0),
+        'rectann': lambda: (RectangularAnnulus((10.3, 9.6), 2.0, 5.0, 3.0, theta=0.3), 'w_out', 7.5),
+        'sky': lambda: (SkyCircularAperture(SkyCoord(10 * u.deg, 20 * u.deg), 2 * u.arcsec), 'r', 3 * u.arcsec)}
+img = np.ones((24, 24))
+def report(ap):
+    if not hasattr(ap, 'to_mask'):
+        return [repr(ap.r)]
+    return [float(ap.area), repr(ap.bbox), float(ap.do_photometry(img)[0][0]), float(ap.to_mask('center').data.sum())]
+first, second = sys.argv[1], sys.argv[2]
+a, attr, val = MAKE[first]()
+report(a); setattr(a, attr, val); report(a)              # the first post-construction assignment of this process is on `first`
+b, attr2, val2 = MAKE[second]()
+before = report(b)
+setattr(b, attr2, val2)
+after = report(b)
+c, _, _ = MAKE[second]()
+setattr(c, attr2, val2)
+fresh = report(c)
+d, _, _ = MAKE[second]()
+print(json.dumps({'after': after, 'fresh': fresh, 'untouched_equal': report(d) == before}))
+"""
+
+
+def cross_object_history(rep, r, thorough):
+    """what an aperture reports after an attribute re-assignment does not depend on which OTHER aperture objects / classes were used before in
+    the same process.  Each ordered pair (first class touched, class under test) runs in a fresh interpreter."""
+    import subprocess
+    import sys
+    kinds = ['circ', 'circann', 'ell', 'ellann', 'rect', 'rectann', 'sky']
+    under_test = [k_ for k_ in kinds if k_ != 'sky']
+    if thorough:
+        pairs = [(a, b) for a in kinds for b in under_test if a != b]
+    else:
+        off = r.randrange(len(kinds))
+        firsts = [kinds[(off + i) % len(kinds)] for i in range(3)]
+        pairs = [(firsts[0], 'circ' if firsts[0] != 'circ' else 'circann'), (firsts[1], 'circann' if firsts[1] != 'circann' else 'ell'),
+                 (firsts[2], 'ell' if firsts[2] != 'ell' else 'circ'), ('ell', 'circ'), ('sky', 'circann')]
+    for first, second in pairs:
+        p = subprocess.run([sys.executable, '-c', CROSS_SCRIPT, first, second], capture_output=True, text=True, timeout=300)
+        rep.case(('cross', first, second), True, kind=f'cross-object-history:{first}->{second}')
+        rep.probe_only += 1
+        rp = {'first_class_touched': first, 'class_under_test': second, 'script': 'tools/props/c09.py:CROSS_SCRIPT'}
+        if p.returncode != 0:
+            rep.violation(f'cross-object-history:raises:{second}', f'after a first attribute assignment on a {first} aperture, re-assigning an attribute of a '
+                          f'{second} aperture raised: {p.stderr.strip().splitlines()[-1][:200] if p.stderr.strip() else p.returncode}', rp)
+            continue
+        res = json.loads(p.stdout.strip().splitlines()[-1])
+        if res['after'] != res['fresh'] or not res['untouched_equal']:
+            rep.violation(f'cross-object-history:{second}', f'in a process whose first attribute assignment was on a {first} aperture, a {second} aperture reports '
+                          f'{res["after"]} after re-assigning an attribute, a fresh object with that value reports {res["fresh"]}', rp)
+
+
 def run(rep, tier):
     thorough = tier == 'thorough'
     rep.rule = ('(a) Background2D: all ordered pairs and triples of the 8 public lazily evaluated attributes + random longer orders, '
@@ -501,6 +566,7 @@ def run(rep, tier):
     profile_stream(rep, drv, r, 60 * scale)
     call_objects(rep, r, 4 * scale)
     aperture_setters(rep, r, 40 * scale)
+    cross_object_history(rep, r, thorough)
     gridded_history(rep, r, 24 * scale)
     ellipse_calls(rep, r)
     # model / residual images of (Iterative)PSFPhotometry in either call order vs fresh objects (shared with C18)
